@@ -100,6 +100,8 @@ def match_known(prop, v, known):
 def case_for(mod, verif_seed, tier, index):
     run_seed = kernel.H(verif_seed, mod.ID, index)
     rnd = random.Random(run_seed)
+    from . import gen
+    gen.TIER_SCALE = 2 if tier == "thorough" else 1
     case = mod.generate(rnd, tier, index=index)
     case["property"] = mod.ID
     case["verif_seed"] = verif_seed
